@@ -14,10 +14,10 @@ pub fn def() -> CheckDef {
         id: "C16",
         title: "Generated acts and lifecycle hooks run exactly as many times as specified",
         case,
-        rule: "case = model whose steps contain parallel / sequence / block acts over lists of length 0..5 (inner act lists of 1..3 irq/msg acts, sometimes a nested block) and setup acts bound to created / completed / before_update / updated / step on the workflow, steps and acts, plus a `push` of an act into an open step, under a completer client with seeded answer order and schedule. oracles count over the message stream, the H2 trace and the final live dump: groups per list element with their own $index/$value, all-at-once (parallel) versus one-after-another in list order (sequence), the generator completes after everything it generated, hook firings = matching lifecycle events, one push = one new act. non-trivial = a generator ran over a list of length >= 2 or at least three hook acts fired; distinct = distinct (scenario hash, schedule hash)",
+        rule: "case = model whose steps contain parallel / sequence / block acts over lists of length 0..5 (inner act lists of 1..3 irq/msg acts, sometimes a nested block) and setup acts bound to created / completed / before_update / updated / step on the workflow, steps and acts, plus a `push` of an act into an open step, a fifth of the hook-free models inside a loop (backward `next` jump, 2..4 visits: every visit generates its own groups), under a completer client with seeded answer order and schedule. oracles count over the message stream, the H2 trace and the final live dump: groups per list element with their own $index/$value, all-at-once (parallel) versus one-after-another in list order (sequence), the generator completes after everything it generated, hook firings = matching lifecycle events, one push = one new act. non-trivial = a generator ran over a list of length >= 2 or at least three hook acts fired; distinct = distinct (scenario hash, schedule hash)",
         level: "exploration",
         assumptions: &["monotone simulated clock", "for `on: step` the README's reading (fires when a step completes) is taken", "a task that is skipped by its own `if` registers no hooks and counts as neither created nor updated", "no storage errors are injected"],
-        probes: &["probe.parallel", "probe.sequence", "probe.block", "probe.empty_list", "probe.nested_block", "probe.hooks_fired", "probe.push", "probe.list_len_ge_3"],
+        probes: &["probe.parallel", "probe.sequence", "probe.block", "probe.empty_list", "probe.nested_block", "probe.hooks_fired", "probe.push", "probe.list_len_ge_3", "probe.generator_visited_again"],
         quick_cases: 3000,
         no_shrink: &[],
     }
@@ -84,10 +84,16 @@ fn gen_scenario(rng: &mut vsim::rng::Rng) -> Scenario {
         steps.push(MStep { id: sid, acts, setup, ..Default::default() });
     }
     let wsetup = hook_acts(rng, "wf", &["created", "completed", "before_update", "updated", "step"], hooks_p);
-    let m = MWorkflow { id: "m".into(), steps, setup: wsetup, ..Default::default() };
+    let mut m = MWorkflow { id: "m".into(), steps, setup: wsetup, ..Default::default() };
     let mut sc = Scenario::default();
+    let mut vars = serde_json::Map::new();
+    // sometimes the steps sit in a loop (backward `next` jump): every visit generates its own groups
+    if hooks_p == 0 && rng.below(5) == 0 {
+        add_loop(&mut m, rng);
+        vars.insert("c".into(), json!(0));
+    }
     sc.models.push(m);
-    sc.starts.push(Start { model: "m".into(), vars: serde_json::Map::new(), pid: Some("p1".into()), at_q: 0 });
+    sc.starts.push(Start { model: "m".into(), vars, pid: Some("p1".into()), at_q: 0 });
     sc.client.mode = rng.pick(&["sequential", "sequential", "sequential", "spawned", "inline"]).to_string();
     sc.client.order = rng.pick(&["fifo", "random", "random"]).to_string();
     sc.engine.keep_processes = true;
@@ -213,8 +219,12 @@ pub fn case(ctx: &mut CaseCtx) -> CaseOut {
     });
     // only top-level generators (those declared directly in a step)
     let top: Vec<MAct> = m.steps.iter().flat_map(|s| s.acts.iter()).filter(|a| matches!(a.kind, ActKind::Parallel { .. } | ActKind::Sequence { .. } | ActKind::Block { .. })).cloned().collect();
-    for g in &top {
-        let Some(gt) = live.tasks.iter().find(|t| t.nid == g.id) else { continue };
+    // every instance of every top-level generator (a step inside a loop is visited several times)
+    let instances: Vec<(&MAct, &TaskImg)> = top.iter().flat_map(|g| live.tasks.iter().filter(move |t| t.nid == g.id).map(move |t| (g, t))).collect();
+    if instances.len() > top.len() {
+        ctx.count("probe.generator_visited_again", 1);
+    }
+    for (g, gt) in instances {
         if !is_terminal_state(&gt.state) && finished {
             let mut hooks = !m.setup.is_empty();
             m.visit_steps(&mut |s| hooks |= !s.setup.is_empty());
